@@ -177,6 +177,34 @@ class Oracle(simcheck.BaseOracle):
             fw._process_close_market(fw.handler_queue.get_nowait())
             if "1.5" not in fw.markets.markets:
                 self.add("live-removed-too-early", "live framework removed a market at its second close although it had been closed again for 0 s (65 min after its FIRST close)")
+            # a market whose FIRST update is already CLOSED (live): it is added, closed, and the strategy is told, once
+            n_before = len([m for m in released])
+            closed_calls = []
+            st.process_closed_market = lambda market, market_book: closed_calls.append(market.market_id)
+            logged = []
+            fw.log_control = lambda e: logged.append(type(e).__name__)
+            fw._process_market_books(events.MarketBookEvent([book("1.9", "CLOSED", t0 + 9000)]))
+            if "1.9" not in fw.markets.markets:
+                self.add("live-close-of-unseen-market-lost", "live: a market whose first update is CLOSED was not added to the framework")
+            elif fw.handler_queue.qsize() != 1:
+                self.add("live-close-of-unseen-market-lost", "live: %d close events queued for one closing update" % fw.handler_queue.qsize())
+            else:
+                fw._process_close_market(fw.handler_queue.get_nowait())
+                m19 = fw.markets.markets["1.9"]
+                if not m19.closed or closed_calls != ["1.9"] or logged.count("CloseMarketEvent") != 1:
+                    self.add("live-close-of-unseen-market-lost", "live: close of a never-seen market: closed=%s callbacks=%s events=%s" % (
+                        m19.closed, closed_calls, logged))
+                # the same market reported CLOSED again: re-opened by the update, closed again by its close event (stamp renewed)
+                d1 = m19.date_time_closed
+                Clock.now_ = Clock.now_ + datetime.timedelta(seconds=30)
+                fw._process_market_books(events.MarketBookEvent([book("1.9", "CLOSED", t0 + 10000)]))
+                if m19.closed or m19.orders_cleared or m19.market_cleared:
+                    self.add("not-reopened", "live: a repeated CLOSED update did not re-open the market first (closed=%s)" % m19.closed)
+                if fw.handler_queue.qsize() == 1:
+                    fw._process_close_market(fw.handler_queue.get_nowait())
+                if not m19.closed or m19.date_time_closed == d1 or closed_calls != ["1.9", "1.9"]:
+                    self.add("live-repeated-close", "live: second CLOSED update: closed=%s stamp renewed=%s callbacks=%s" % (
+                        m19.closed, m19.date_time_closed != d1, closed_calls))
         finally:
             datetime.datetime = real
             for ex in (fw.simulated_execution, fw.betfair_execution, fw.betdaq_execution):
